@@ -14,15 +14,13 @@ tier = sys.argv[4] if len(sys.argv) > 4 else "quick"
 scratch = tempfile.mkdtemp(prefix="snt-seed-", dir="/var/tmp")
 res = {"patch": patch, "pid": pid, "tier": tier}
 try:
-    for d in ("src", "tests"):
-        shutil.copytree(os.path.join("/repo", d), os.path.join(scratch, d))
-    for f in ("pyproject.toml",):
-        shutil.copy(os.path.join("/repo", f), scratch)
+    shutil.rmtree(scratch)
+    shutil.copytree("/repo", scratch, ignore=shutil.ignore_patterns(".git", "__pycache__"))
     p = subprocess.run(["patch", "-p1", "-i", os.path.abspath(patch)], cwd=scratch, capture_output=True, text=True)
     if p.returncode != 0:
         print("PATCH FAILED", p.stdout, p.stderr); sys.exit(2)
     env = dict(os.environ, PYTHONPATH=os.path.join(scratch, "src"), PYTHONWARNINGS="ignore")
-    t = subprocess.run(["/venv/bin/python", "-m", "pytest", "-q", "-p", "no:cacheprovider", "tests", "-x"], cwd=scratch, env=env,
+    t = subprocess.run(["/venv/bin/python", "-m", "pytest", "-q", "-p", "no:cacheprovider", "tests"], cwd=scratch, env=env,
                        capture_output=True, text=True)
     res["tests"] = t.stdout.strip().splitlines()[-1] if t.stdout.strip() else t.stderr[-200:]
     if demo != "-":
